@@ -144,6 +144,8 @@ impl AisParser {
                 let mut data = AisRawData::default();
                 lib::std::mem::swap(&mut data, &mut self.data);
                 ais_sentence.data = data;
+                // The group has been delivered; nothing may continue it
+                self.fragment_number = 0;
             }
             if decode {
                 let unarmored =
